@@ -26,11 +26,13 @@ type mfEntry struct {
 	Body   string
 	Tag    string
 	Pad    int  // > 0: make the entry's line longer than 64 KiB with Pad filler characters
+	Total  int  // > 0: pad the BODY with filler so that the sized part of the entry is exactly Total bytes
 	Empty  bool // the all-empty entry a JSON null decodes to
+	Fmt    string
 }
 
 func mfWellFormed(format, id string) mfEntry {
-	e := mfEntry{ID: id, Tag: id, URI: "/" + id + "?q=" + id}
+	e := mfEntry{ID: id, Tag: id, URI: "/" + id + "?q=" + id, Fmt: format}
 	switch format {
 	case "uri":
 		e.Method = "GET"
@@ -52,8 +54,26 @@ func (e mfEntry) render(format string) string {
 	case "uri":
 		return e.URI + e.padIn("&pad=") + " " + e.Tag + "\n"
 	case "uripost":
+		if e.Total > 0 {
+			e.Body += strings.Repeat(mfPadChar, e.Total-len(e.Body))
+		}
 		return fmt.Sprintf("%d %s%s %s\n%s\n", len(e.Body), e.URI, e.padIn("&pad="), e.Tag, e.Body)
 	case "raw":
+		if e.Total > 0 {
+			// the Content-Length digits change with the body: fit by iteration
+			for k := 0; k < 4; k++ {
+				head := fmt.Sprintf("%s %s HTTP/1.1\r\nHost: raw.example.org\r\nX-Common: c\r\nContent-Length: %d\r\n\r\n", e.Method, e.URI, len(e.Body))
+				d := e.Total - len(head) - len(e.Body)
+				if d == 0 {
+					break
+				}
+				if d > 0 {
+					e.Body += strings.Repeat(mfPadChar, d)
+				} else {
+					e.Body = e.Body[:len(e.Body)+d]
+				}
+			}
+		}
 		req := fmt.Sprintf("%s %s HTTP/1.1\r\nHost: raw.example.org\r\nX-Common: c\r\nContent-Length: %d\r\n\r\n%s",
 			e.Method, e.URI, len(e.Body), e.Body)
 		return fmt.Sprintf("%d %s%s\n%s\n", len(req), e.Tag, e.padStr(), req)
@@ -85,6 +105,33 @@ func mfRenderItem(format, cls string, rest string) (string, *mfEntry) {
 	case "longline":
 		x.Pad = 70000
 		return x.render(format), &x
+	case "big_m1", "big_eq", "big_p1":
+		x.Total = map[string]int{"big_m1": 1<<20 - 1, "big_eq": 1 << 20, "big_p1": 1<<20 + 1}[cls]
+		r := x.render(format)
+		return r, &x
+	case "size0":
+		x.Body = ""
+		return x.render(format), &x
+	case "trunc1", "mib_trunc", "big_trunc1", "big_trunc":
+		// the item ends the file (nt = 0): `left` bytes follow the size line, the size field says `size`
+		var size, left int
+		switch cls {
+		case "trunc1":
+			left = 38
+			size = left + 1
+		case "mib_trunc":
+			left, size = 38, 1<<20
+		case "big_trunc1":
+			left, size = 1<<20, 1<<20+1
+		case "big_trunc":
+			left, size = 38, 2<<20
+		}
+		body := "GET /x HTTP/1.1\r\nHost: h\r\n\r\n"
+		body += strings.Repeat(mfPadChar, left-len(body))
+		if format == "raw" {
+			return fmt.Sprintf("%d x\n%s", size, body), nil
+		}
+		return fmt.Sprintf("%d /x x\n%s", size, body), nil
 	case "truncated":
 		body := "abc\n"
 		size := len(body) + len(rest) + 50
@@ -283,9 +330,30 @@ func mfIdentify(d mfDelivery, entries []mfEntry) string {
 			}
 			continue
 		}
+		if e.Total > 0 {
+			// a padded body: same length and same content as rendered
+			if d.Tag == e.Tag && d.Method == e.Method && d.URI == e.URI && d.Common == "c" && mfPaddedBodyOK(d.Body, e, e.Fmt) {
+				return e.ID
+			}
+			continue
+		}
 		if stripPad(d.Tag) == e.Tag && d.Method == e.Method && stripPad(d.URI) == e.URI && d.Body == e.Body && d.Common == "c" {
 			return e.ID
 		}
 	}
 	return trunc(fmt.Sprintf("other(tag=%q method=%q uri=%q body=%q common=%q)", trunc(d.Tag, 20), d.Method, trunc(d.URI, 30), trunc(d.Body, 20), d.Common), 150)
+}
+
+// the body of an entry rendered with Total: the original body followed by filler up to the rendered length
+func mfPaddedBodyOK(got string, e mfEntry, format string) bool {
+	base := mfWellFormed(format, e.ID).Body
+	if !strings.HasPrefix(got, base) || strings.Trim(got[len(base):], mfPadChar) != "" {
+		return false
+	}
+	if format == "uripost" {
+		return len(got) == e.Total
+	}
+	// raw: head + body = Total
+	head := fmt.Sprintf("%s %s HTTP/1.1\r\nHost: raw.example.org\r\nX-Common: c\r\nContent-Length: %d\r\n\r\n", e.Method, e.URI, len(got))
+	return len(head)+len(got) == e.Total
 }
